@@ -7,6 +7,7 @@
  * work between rounds).  Progress: logical-deadlock rule (all callers inside
  * barrier_wait, pools empty). */
 #include "actors.h"
+#include <sched.h>
 
 #define MAXA 40
 #define MAXR 20000
@@ -20,8 +21,10 @@ typedef struct {
     uint32_t *arrivals;
     uint32_t *leaves;
     ABT_barrier tb; /* barrier with one waiter used by tasklet callers */
+    int final_reinit, reinit_actor, reinit_done, extra_arrivals;
 } bctx_t;
 
+static int c_reinit_overlap;
 static int c_task_err_shared, c_xb_ext, c_xb_single_es;
 static int c_rounds, c_cases, c_waits, c_task_err, c_task_ok, c_reinit, c_xb_rounds,
     c_laps;
@@ -91,6 +94,31 @@ static void barrier_body(actor_t *a)
                     ;
         }
     }
+    if (c->final_reinit && !c->use_xb && vrt_num_violations() == 0) {
+        /* one waiter reinitialises the barrier the moment its last wait has
+         * returned (the others may still be on their way out of that round);
+         * then everybody goes through one more round */
+        if (a->idx == c->reinit_actor) {
+            VRT_ABT(ABT_barrier_reinit(c->b, (uint32_t)c->n));
+            __atomic_store_n(&c->reinit_done, 1, __ATOMIC_SEQ_CST);
+        } else {
+            while (!__atomic_load_n(&c->reinit_done, __ATOMIC_SEQ_CST) && vrt_num_violations() == 0) {
+                if (a->kind == ACT_ULT)
+                    ABT_thread_yield();
+                else
+                    sched_yield();
+            }
+        }
+        __atomic_fetch_add(&c->extra_arrivals, 1, __ATOMIC_SEQ_CST);
+        vrt_actor_set(a->vid, VRT_A_BLOCKED, "barrier_wait after reinit");
+        int rc = ABT_barrier_wait(c->b);
+        vrt_actor_set(a->vid, VRT_A_RUNNING, "after the extra round");
+        if (rc != ABT_SUCCESS)
+            vrt_violation("barrier:wait-error", "wait after reinit returned %d", rc);
+        else if (__atomic_load_n(&c->extra_arrivals, __ATOMIC_SEQ_CST) != c->n)
+            vrt_violation("barrier:released-early", "actor %d left the round after ABT_barrier_reinit with %d of %d arrivals",
+                          a->idx, c->extra_arrivals, c->n);
+    }
 }
 
 static void run_phase(world_t *w, bctx_t *c, vrt_rng *r, int n, int next,
@@ -103,6 +131,18 @@ static void run_phase(world_t *w, bctx_t *c, vrt_rng *r, int n, int next,
     memset(c->arrivals, 0, sizeof(uint32_t) * (size_t)rounds);
     memset(c->leaves, 0, sizeof(uint32_t) * (size_t)rounds);
     actors_kinds(r, kinds, n - next, next, ntask);
+    c->final_reinit = !c->use_xb && vrt_range(r, 2);
+    c->reinit_done = c->extra_arrivals = 0;
+    c->reinit_actor = 0;
+    for (int i = 0; i < n + ntask; i++)
+        if (kinds[i] != ACT_TASK && (kinds[i] == ACT_ULT || vrt_range(r, 2))) {
+            c->reinit_actor = i;
+            break;
+        }
+    if (kinds[c->reinit_actor] == ACT_TASK)
+        c->final_reinit = 0;
+    if (c->final_reinit)
+        vrt_count(c_reinit_overlap, 1);
     task_stream_t ts;
     vrt_actor_reset_all();
     actors_spawn(w, actors, n + ntask, kinds, barrier_body, c, &ts, seed);
@@ -133,6 +173,7 @@ int main(int argc, char **argv)
     c_task_ok = vrt_counter("tasklet_wait_accepted");
     c_reinit = vrt_counter("reinits");
     c_xb_rounds = vrt_counter("xstream_barrier_rounds");
+    c_reinit_overlap = vrt_counter("reinit_issued_by_a_waiter_right_after_its_last_wait");
     c_task_err_shared = vrt_counter("tasklet_rejected_on_the_shared_barrier");
     c_xb_ext = vrt_counter("xstream_barrier_external_waiters");
     c_xb_single_es = vrt_counter("xstream_barrier_phases_with_one_stream");
